@@ -256,7 +256,12 @@ theorem processCore_no_crash (fuel : Nat) (o1 : Obj) (inNull outNull : Bool) (il
   unfold processCore
   intro h
   split at h
-  · exact pure_no_crash _ _ _ h
+  · rw [bind_crash] at h
+    rcases h with h | ⟨_, _, _, h⟩
+    · split at h
+      · exact repeatM_emit_no_crash _ _ _ _ h
+      · exact pure_no_crash _ _ _ h
+    · exact pure_no_crash _ _ _ h
   · rw [bind_crash] at h
     rcases h with h | ⟨oi, c1, hoi, h⟩
     · split at h
